@@ -146,6 +146,9 @@ def keymaps(tier, typed=False):
         ('stringmap(flat=False)', lambda: km.stringmap(flat=False), True),
         ("picklemap(pickle)", lambda: km.picklemap(serializer='pickle'), True),
         ("picklemap(pickle,flat=False)", lambda: km.picklemap(serializer='pickle', flat=False), True),
+        # a chained keymap (inner map, then outer map) and string keymaps with a named codec
+        ("stringmap(flat=False)+hashmap(sha1,flat=False)", lambda: km.stringmap(flat=False) + km.hashmap(algorithm='sha1', flat=False), True),
+        ("stringmap(latin-1,flat=False)", lambda: km.stringmap(encoding='latin-1', flat=False), True),
     ]
     if tier == 'thorough':
         out += [
@@ -157,7 +160,8 @@ def keymaps(tier, typed=False):
             ("stringmap(sentinel)", lambda: km.stringmap(sentinel=S), True),
             ("stringmap(utf-8)", lambda: km.stringmap(encoding='utf-8'), True),
             ("picklemap(pickle)+hashmap(md5)", lambda: km.picklemap(serializer='pickle') + km.hashmap(algorithm='md5'), True),
-            ("stringmap(flat=False)+hashmap(sha1)", lambda: km.stringmap(flat=False) + km.hashmap(algorithm='sha1'), True),
+            ("stringmap(ascii)", lambda: km.stringmap(encoding='ascii'), True),
+            ("stringmap(cp437,flat=False)", lambda: km.stringmap(encoding='cp437', flat=False), True),
         ]
     if typed:
         out = [
